@@ -1219,7 +1219,7 @@ func TestVerif_C42(t *testing.T) {
 				}
 				sc, check := verifC42Scenario(r, mode, m, name, base)
 				st := vx.Explore(r, t, name, sc, xplore.Options{Policy: xplore.FIFO, Bound: -1, MaxSteps: 300}, check)
-				r.Note("%s: execs(this shard)=%d maxdev=%d max choices at one step=%d", name, st.Execs, st.MaxDev, st.MaxPending)
+				r.Count("execs "+name, st.Execs)
 			}
 		}
 	}
